@@ -20,8 +20,15 @@ def members(rng, kw):
             A.Prefixed(A.Alias("Int16ub"), A.GreedyBytes, incl=True), A.Prefixed(A.VarInt, A.Alias("Byte")), A.VarInt, A.CString("utf8"), A.PascalString(A.Alias("Byte"), "utf8"),
             A.PrefixedArray(A.Alias("Byte"), A.Alias("Int16ub")), A.Array(2, A.Alias("Byte")), A.Struct(A.Renamed("x", A.Alias("Byte")), A.Renamed("y", A.Bytes(1))),
             A.Padded(3, A.Alias("Byte")), A.Flag, A.ZigZag, A.PaddedString(A.T("_params", "k"), "ascii")]
+    pool += [A.PrefixedArray(A.Alias("Byte"), A.VarInt), A.PrefixedArray(A.Alias("Int16ub"), A.CString("utf8"))]
     n = rng.choice([1, 2, 3, 3, 4, 4, 5, 6])
     return [A.Renamed(nm, rng.choice(pool)) for nm in "abcdef"[:n]]
+
+def prefix_measured(rng):
+    "members whose size is found by reading a prefix (Construct._actualsize): the probe moves the stream, and may still have to give up"
+    return rng.choice([A.Prefixed(A.Alias("Byte"), A.GreedyBytes), A.Prefixed(A.Alias("Int16ub"), A.GreedyBytes, incl=True), A.Prefixed(A.Alias("Byte"), A.Bytes(2), incl=True),
+                       A.Prefixed(A.VarInt, A.GreedyBytes, incl=True), A.PrefixedArray(A.Alias("Byte"), A.VarInt), A.PrefixedArray(A.Alias("Int16ub"), A.CString("utf8")),
+                       A.PrefixedArray(A.Alias("Byte"), A.Alias("Int16ub")), A.Prefixed(A.VarInt, A.Alias("Byte"))])
 
 def eager_twin(n):
     if not isinstance(n, dict) or "k" not in n:
@@ -71,24 +78,35 @@ def run(ctx):
     if "violated" not in out:
         raise tlc.MachineryError("MC_C16 negative control: no violation found for a lazy object that does not restore the position")
     ctx.cov["design_level"]["MC_C16_control"] = "violation found when accesses do not restore the position, as required"
-    nprog = 70 if quick else 1000
+    nprog = 180 if quick else 1500
     nt = 0
     with campaign.Campaign(ctx, "c16", shard_size=1200) as camp:
-        for i in range(nprog):
+        fixed = [("array", A.N("LazyArray", count=A.C(2), sub=A.PrefixedArray(A.Alias("Byte"), A.VarInt))),
+                 ("array", A.N("LazyArray", count=A.C(3), sub=A.PrefixedArray(A.Alias("Int16ub"), A.CString("utf8")))),
+                 ("array", A.N("LazyArray", count=A.C(2), sub=A.Prefixed(A.Alias("Byte"), A.Bytes(2), incl=True))),
+                 ("array", A.N("LazyArray", count=A.C(3), sub=A.Prefixed(A.VarInt, A.GreedyBytes, incl=True))),
+                 ("thunk", A.N("Lazy", sub=A.Prefixed(A.Alias("Int16ub"), A.GreedyBytes, incl=True))),
+                 ("thunk", A.N("Lazy", sub=A.PrefixedArray(A.Alias("Byte"), A.Alias("Int16ub"))))]
+        for i in range(nprog + len(fixed)):
             kw = {"k": rng.choice([1, 2, 3])}
             mem = members(rng, kw)
-            kind = rng.choice(["struct", "struct", "array", "thunk"])
-            if kind == "struct":
+            kind = rng.choice(["struct", "struct", "array", "array", "thunk"])
+            if i < len(fixed):
+                kind, lazy = fixed[i]
+                mem = [A.Renamed("a", lazy["sub"])]
+            elif kind == "struct":
                 lazy = A.N("LazyStruct", subs=mem)
             elif kind == "array":
-                el = mem[0]["sub"]
-                lazy = A.N("LazyArray", count=rng.choice([1, 2, 3, 4, 5]), sub=el)
+                el = mem[0]["sub"] if rng.random() < 0.5 else prefix_measured(rng)
+                lazy = A.N("LazyArray", count=A.C(rng.choice([1, 2, 3, 4, 5])), sub=el)
             else:
-                lazy = A.N("Lazy", sub=A.Struct(*mem))
+                lazy = A.N("Lazy", sub=A.Struct(*mem) if rng.random() < 0.5 else prefix_measured(rng))
             eager = eager_twin(lazy)
             try:
                 lc, ec = A.realize(lazy), A.realize(eager)
+                campaign.REALIZED["ok"] += 1
             except Exception:
+                campaign.REALIZED["failed"] += 1
                 continue
             # canonical inputs (+ trailing bytes), mutated ones
             datas = []
